@@ -258,7 +258,10 @@ class Block:
             return crc
         if self.raw_col is not None:
             col, idx = self.raw_col
-            plain = unrle1(ibwt_column(col, idx))
+            blk = ibwt_column(col, idx)
+            if self.rand:
+                blk = derand(blk)
+            plain = unrle1(blk)
             self.data = bytes(plain)
             crc = crc32_bz(plain) ^ 0xFFFFFFFF
             mv, used, asz = mtfzrle(list(col))
@@ -660,6 +663,23 @@ def one_defect(rng, kind=None, maxlen=300):
         return rng.choice([b"", b"B", b"BZ", b"BZh", b"BZh9", b"BZh9\x17", b"BZh9\x17\x72\x45\x38\x50\x90\x00\x00\x00"]), kind, "reject"
     bits = stream(blocks, level, rng)
     return to_bytes(bits), kind, expect
+
+
+def big_rand_file(rng, n=300000, level=9):
+    """A conforming stream with one RANDOMISED block of n (post-RLE1) bytes: an arbitrary column over a 200-letter alphabet and a
+    random origin pointer; the plaintext is whatever that decodes to (inverse BWT, de-randomisation, inverse RLE1).  More than
+    278191 bytes make the 512-entry randomisation table wrap around."""
+    while True:
+        col = bytes(rng.below(200) for _ in range(n))
+        idx = rng.below(n)
+        b = Block()
+        b.raw_col = (col, idx)
+        b.rand = 1
+        blk = derand(ibwt_column(col, idx))
+        if len(set(blk[-4:])) > 1:            # a block ending in four equal bytes would need a count byte
+            break
+    bits = stream([b], level, rng)
+    return to_bytes(bits), bytes(b.data)
 
 
 def dense20_file(rng, nsyms=60000, level=9):
